@@ -33,9 +33,36 @@ def rule_window(fx, rep):
         except (exp.NotDerivable, exp.Budget) as e:
             rep.fail('RANGE', '%s:find_pippinger_window' % g, 'not derivable: %s' % e, fx.fn(p)['span'])
             continue
+        # the count must not be narrowed: `n as u32` makes the heuristic (and any subtraction or index computed from it) depend
+        # on n mod 2^32 -- a lossy cast of a value that depends on the parameter is accepted only on a value bounded by a
+        # constant `min`
+        WIDTH = {'usize': 64, 'u64': 64, 'u128': 128, 'u32': 32, 'u16': 16, 'u8': 8, 'isize': 64, 'i64': 64, 'i32': 32, 'i16': 16, 'i8': 8}
+        o_ = Origin(b)
+
+        def mentions_param(term, depth=0):
+            if depth > 12:
+                return True
+            if term == ('param', 1):
+                return True
+            if isinstance(term, (tuple, list)):
+                return any(mentions_param(x_, depth + 1) for x_ in term)
+            return False
+        narrowed = []
+        for blk_ in b.blocks:
+            for s_ in blk_['stmts']:
+                if s_['k'] == 'assign' and s_['rv']['k'] == 'cast' and s_['rv']['kind'] == 'IntToInt':
+                    op_ = s_['rv']['op']
+                    src_ty = b.local_ty(op_[1]['l']) if op_[0] in ('c', 'm') and not op_[1]['p'] else ''
+                    if WIDTH.get(src_ty, 0) > WIDTH.get(s_['rv']['ty'], 1 << 30):
+                        term_ = strip(o_.operand(op_))
+                        bounded = term_ and term_[0] == 'call' and term_[1].get('name') in ('min', 'clamp')
+                        if mentions_param(term_) and not bounded:
+                            narrowed.append('%s as %s at %s' % (src_ty, s_['rv']['ty'], s_['span']))
+        rep.check(not narrowed, 'RANGE', '%s:find_pippinger_window:count-not-narrowed' % g, 'the number of components is never truncated to a narrower integer',
+                  'the component count is truncated (%s): the window then depends on the count modulo a power of two, and arithmetic on the truncated value can underflow' % '; '.join(narrowed[:2]), fx.fn(p)['span'], construct=p)
         vals = [ret.v if isinstance(ret, Int) else None for _, ret, _ in res]
         ok = vals and all(v is not None and 1 <= v <= 16 for v in vals)
-        rep.check(ok, 'RANGE', '%s:find_pippinger_window:range' % g, 'every return value is in 1..=16: %s' % sorted(set(vals)),
+        rep.check(ok, 'RANGE', '%s:find_pippinger_window:range' % g, 'every return value is in 1..=16: %s' % sorted(set(vals), key=str),
                   'the window heuristic can return %s (documented range 1..=16)' % sorted(set(v for v in vals if v is None or not 1 <= v <= 16), key=str), fx.fn(p)['span'], construct=p)
 
 
